@@ -755,7 +755,11 @@ def _n9(tree, new_names):
                 inner_returns = [x for s in body[:-1] for x in ast.walk(s) if isinstance(x, ast.Return)]
                 last = body[-1]
                 nested_ret_in_last = [x for x in ast.walk(last) if isinstance(x, ast.Return) and x is not last]
-                if inner_returns or nested_ret_in_last or any(isinstance(x, (ast.Yield, ast.YieldFrom)) for s in body for x in ast.walk(s)):
+                has_yield = any(isinstance(x, (ast.Yield, ast.YieldFrom)) for s in body for x in ast.walk(s))
+                # `return helper(..)`: every return of the helper returns from the caller with the same value - early returns
+                # need no restructuring in tail position
+                tail_ok = mode == "return" and not has_yield
+                if ((inner_returns or nested_ret_in_last) and not tail_ok) or has_yield:
                     i += 1
                     continue
                 m = _bind_args(h, call, skip)
@@ -768,26 +772,37 @@ def _n9(tree, new_names):
                 mod = ast.Module(body=new_body, type_ignores=[])
                 # parameters: bind to temporaries unless the argument is simple and the parameter is never re-assigned
                 stored = {x.id for x in ast.walk(mod) if isinstance(x, ast.Name) and isinstance(x.ctx, ast.Store)}
+                # a local of the helper keeps its name unless the caller already uses that name (capture); the names are then
+                # those of the function before the helper was extracted
+                taken = {x.id for x in ast.walk(fn) if isinstance(x, ast.Name)} | {a.arg for a in ast.walk(fn) if isinstance(a, ast.arg)}
+                taken |= {x.id for a in m.values() for x in ast.walk(a) if isinstance(x, ast.Name)}
+
+                def fresh_name(nm):
+                    return nm + suffix if nm in taken else nm
+
                 pre = []
                 sub = {}
                 for p, a in m.items():
                     if _simple_arg(a) and p not in stored:
                         sub[p] = a
                     else:
-                        tmp = p + suffix
+                        tmp = fresh_name(p)
                         pre.append(ast.Assign(targets=[ast.Name(id=tmp, ctx=ast.Store())], value=copy.deepcopy(a), lineno=st.lineno, col_offset=0))
                         sub[p] = ast.Name(id=tmp, ctx=ast.Load())
                 # rename the helper's own locals
-                ren = {nm: nm + suffix for nm in stored if nm not in m}
+                ren = {nm: fresh_name(nm) for nm in stored if nm not in m}
                 for x in ast.walk(mod):
                     if isinstance(x, ast.Name) and x.id in ren:
                         x.id = ren[x.id]
                     elif isinstance(x, ast.Name) and x.id in m and isinstance(x.ctx, ast.Store):
-                        x.id = x.id + suffix
-                mod = _Subst({**sub, **{p: ast.Name(id=p + suffix, ctx=ast.Load()) for p in m if p in stored}}).visit(mod)
+                        x.id = fresh_name(x.id)
+                mod = _Subst({**sub, **{p: ast.Name(id=fresh_name(p), ctx=ast.Load()) for p in m if p in stored}}).visit(mod)
                 out = pre + mod.body
                 lastn = out[-1]
-                if isinstance(lastn, ast.Return):
+                if mode == "return" and (inner_returns or nested_ret_in_last):
+                    if not isinstance(lastn, (ast.Return, ast.Raise)):
+                        out.append(ast.Return(value=ast.Constant(value=None)))
+                elif isinstance(lastn, ast.Return):
                     rv = lastn.value if lastn.value is not None else ast.Constant(value=None)
                     if mode == "expr":
                         out[-1] = ast.Expr(value=rv) if not isinstance(rv, ast.Constant) else ast.Pass()
@@ -829,10 +844,28 @@ def _pattern_test(pat, subj):
     load = lambda: copy.deepcopy(subj)  # noqa: E731
     if isinstance(pat, ast.MatchClass) and not pat.patterns and not pat.kwd_patterns:
         return ast.Call(func=ast.Name(id="isinstance", ctx=ast.Load()), args=[load(), copy.deepcopy(pat.cls)], keywords=[]), []
+    if isinstance(pat, ast.MatchClass) and not pat.patterns and pat.kwd_patterns:
+        # Cls(attr=<pattern>, ..): the class test, then the sub-patterns on the attributes (read as `subject.attr`)
+        tests = [ast.Call(func=ast.Name(id="isinstance", ctx=ast.Load()), args=[load(), copy.deepcopy(pat.cls)], keywords=[])]
+        binds = []
+        for attr, sub in zip(pat.kwd_attrs, pat.kwd_patterns):
+            inner = _pattern_test(sub, ast.Attribute(value=load(), attr=attr, ctx=ast.Load()))
+            if inner is None:
+                return None
+            if not (isinstance(inner[0], ast.Constant) and inner[0].value is True):
+                tests.append(inner[0])
+            binds += inner[1]
+        return (tests[0] if len(tests) == 1 else ast.BoolOp(op=ast.And(), values=tests)), binds
     if isinstance(pat, ast.MatchOr):
         parts = [_pattern_test(p, subj) for p in pat.patterns]
-        if any(p is None or p[1] for p in parts):
+        if any(p is None for p in parts):
             return None
+        if any(p[1] for p in parts):
+            # alternatives that bind names: every alternative binds the same names to the same paths of the subject
+            dumps = {tuple(ast.dump(b) for b in p[1]) for p in parts}
+            if len(dumps) != 1:
+                return None
+            return ast.BoolOp(op=ast.Or(), values=[p[0] for p in parts]), parts[0][1]
         classes = [p[0].args[1] for p in parts if isinstance(p[0], ast.Call) and getattr(p[0].func, "id", "") == "isinstance"]
         if len(classes) == len(parts):
             union = classes[0]
@@ -877,7 +910,7 @@ def _n13(tree):
                     if case.guard is not None:
                         guard = case.guard
                         if binds:  # the guard may read the binding: it denotes the (simple) subject there
-                            guard = _Subst({b.targets[0].id: st.subject for b in binds}).visit(copy.deepcopy(guard))
+                            guard = _Subst({b.targets[0].id: b.value for b in binds}).visit(copy.deepcopy(guard))
                         case = ast.match_case(pattern=case.pattern, guard=guard, body=case.body)
                         test = case.guard if isinstance(test, ast.Constant) and test.value is True else ast.BoolOp(op=ast.And(), values=[test, case.guard])
                     arms.append((test, binds + case.body))
